@@ -172,6 +172,38 @@ theorem C14_rebind_every_occurrence (ns : String) (tb1 tb2 : Table) (t t1 t2 : L
     occs "" none [] t2 = (occs "" none [] t).map (relink tb2 ns) :=
   applyNs_occs "" ns t tb2 none [] t2 (fun _ => rfl) (applyNs_overwrite "" ns t tb1 tb2 [] t1 t2 h1 h2)
 
+/-- **When an application fails.** A root-level pass panics exactly when some occurrence of the
+    namespace does not find its ID in the table it is looked up in; it then yields NO tree (there is
+    nothing to observe of a failed application), ... -/
+theorem C14_apply_panics_iff (n : String) (tbl : Table) (t : LTy) :
+    applyNs "" tbl n [] t = .panic ↔
+      ∃ o ∈ occs "" none [] t, o.ns = n ∧ lookupS o.id (passTable tbl n o) = none := by
+  have hiff := C14_apply_ok_iff n tbl t
+  constructor
+  · intro hp
+    apply Classical.byContradiction
+    intro hne
+    have : ∃ t', applyNs "" tbl n [] t = .ok t' := hiff.mpr (fun o ho hn => by
+      cases hl : lookupS o.id (passTable tbl n o) with
+      | none => exact absurd ⟨o, ho, hn, hl⟩ hne
+      | some a => rfl)
+    obtain ⟨t', ht'⟩ := this
+    rw [hp] at ht'; cases ht'
+  · rintro ⟨o, ho, hn, hl⟩
+    rcases applyNs_ok_or_panic "" n t tbl [] with hok | hp
+    · have := hiff.mp hok o ho hn
+      rw [hl] at this; cases this
+    · exact hp
+
+/-- ... so a caller that recovers from the panic keeps the tree it had: every reference - the one
+    whose ID is missing included - is linked (or unlinked) exactly as before, and `ValidateReferences`
+    answers as before. -/
+theorem C14_failed_apply_unchanged (w : String) (ns : String) (tbl : Table) (p : Path) (t : LTy)
+    (h : applyNs w tbl ns p t = .panic) :
+    recovered (applyNs w tbl ns p t) t = t ∧
+    validateRefs (recovered (applyNs w tbl ns p t) t) = validateRefs t := by
+  rw [h]; exact ⟨rfl, rfl⟩
+
 /-- **`ValidateReferences` succeeds exactly when every reference is linked** - at any depth:
     `occs` lists the references below properties, list items, map keys and values, one-of members,
     and in ALL objects of every (inner) scope, reachable from the root object or not. -/
@@ -627,6 +659,8 @@ end Arca
 #print axioms Arca.C14_applySelf_after_build
 #print axioms Arca.C14_reapply_anywhere
 #print axioms Arca.C14_rebind_last_wins
+#print axioms Arca.C14_apply_panics_iff
+#print axioms Arca.C14_failed_apply_unchanged
 #print axioms Arca.C14_rebind_every_occurrence
 #print axioms Arca.C14_validate_refs_iff
 #print axioms Arca.C14_run_env_is_lexical
